@@ -16,6 +16,9 @@ def run(ctx):
            ("cluster-list", dict(ClusterCounts={1, 2, 63, 64, 65, 100, 300}, Sessions={"v4rr", "v6rr", "v4i"})),
            ("unknown", dict(UnknownSizes={1, 254, 255, 256, 257, 1000, 3000}, Flavours={"plain", "two-unknown"})),
            ("flavours", dict(Flavours={"plain", "otc", "med"}, PfxLens={0, 8, 24, 32} if not big else {0, 1, 7, 8, 9, 24, 31, 32})),
+           ("prepend by policy", dict(ASCounts={0, 100, 244, 245, 246, 250, 254, 255, 256, 300, 505, 509}, Flavours={"prepend-many"}, Sessions={"v4e", "v4e2", "v6e"})),
+           ("combinations", dict(CommCounts={0, 2}, LCommCounts={0, 2}, ClusterCounts={0, 2}, UnknownSizes={0, 5}, Flavours={"plain", "otc", "two-unknown"},
+                                 Sessions={"v4e", "v4rr", "v6iAP"}, PfxCounts={1})),
            ("oversize", dict(ASCounts={900, 1100}, CommCounts={0, 400}, UnknownSizes={0, 3000}, Sessions={"v4e", "v6e"}))]
     for name, over in fam:
         behs += wt.cases(ctx, name, **dict(base, **over))
@@ -24,8 +27,8 @@ def run(ctx):
                                                UnknownSizes={0, 256}, Flavours={"plain", "otc", "prepend-full-segment"}))
     ctx.exhaustive = True
     ctx.rule = ("cases = session kind (IPv4 classic / IPv6 multiprotocol, add-path, iBGP, RR client, 2/4-octet ASN) x one attribute at a "
-                "time across its encoding boundaries (AS_PATH 0..900 ASNs incl. a prepend onto a full segment, communities up to 900, "
-                "large communities, CLUSTER_LIST up to 300, unknown transitive attributes up to 3000 bytes, OTC, MED, prefix lengths) "
+                "time across its encoding boundaries (AS_PATH 0..900 ASNs incl. a prepend of 1 and of 10 ASNs onto / across a full segment, communities up to 900, "
+                "large communities, CLUSTER_LIST up to 300, unknown transitive attributes up to 3000 bytes, OTC, MED, prefix lengths) and all combinations of the optional attributes present / absent "
                 "(thorough: also combined); each case goes through the production path UpdateSender.AddPath -> PathAttributes -> "
                 "SerializeUpdate; every emitted message must be decodable by the strict reference decoder, be <= 4096 bytes, carry "
                 "exactly the attribute set and contents of the case with the byte sizes WireTx computes, and be read back by "
